@@ -202,11 +202,11 @@ pub fn run(scn: &Value) -> Value {
         let (m2, t2) = (m.clone(), target.clone());
         let r = std::panic::catch_unwind(std::panic::AssertUnwindSafe(move || one_request(&router2, &m2, &t2)));
         let o = match r {
-            Err(e) => json!({"k": "panic", "status": 0, "mt": "", "eq": [], "eqlate": false, "eqout": false, "blen": 0, "tail": 0,
+            Err(e) => json!({"k": "panic", "status": 0, "mt": "", "eq": [], "eqall": [], "eqlate": false, "eqout": false, "blen": 0, "tail": 0,
                              "framing": "", "cl": "", "nct": 0, "err": util::clip(&panic_msg(e), 120), "target": target}),
             Ok((buf, how)) => {
                 if buf.is_empty() {
-                    json!({"k": how, "status": 0, "mt": "", "eq": [], "eqlate": false, "eqout": false, "blen": 0, "tail": 0,
+                    json!({"k": how, "status": 0, "mt": "", "eq": [], "eqall": [], "eqlate": false, "eqout": false, "blen": 0, "tail": 0,
                            "framing": "", "cl": "", "nct": 0, "err": "nothing written", "target": target})
                 } else {
                     let p = util::parse_response(&buf, m == "HEAD");
@@ -215,8 +215,11 @@ pub fn run(scn: &Value) -> Value {
                     let cl = p.headers.iter().find(|(k, _)| k.eq_ignore_ascii_case("content-length")).map(|(_, v)| v.clone()).unwrap_or_default();
                     let eq: Vec<usize> = contents.iter().enumerate().filter(|(_, c)| **c == p.body).map(|(i, _)| i + 1).collect();
                     let tail = buf.len().saturating_sub(p.consumed);
+                    // everything that follows the head on the wire, whatever the declared framing says
+                    let after: &[u8] = util::find(&buf, b"\r\n\r\n").map(|i| &buf[i + 4..]).unwrap_or(&[]);
+                    let eqall: Vec<usize> = contents.iter().enumerate().filter(|(_, c)| c.as_slice() == after).map(|(i, _)| i + 1).collect();
                     json!({"k": if p.error.is_empty() { "resp" } else { "unparsable" }, "status": p.status, "mt": mt, "eq": eq,
-                           "eqlate": p.body.starts_with(b"LATE "), "eqout": p.body == outside,
+                           "eqall": eqall, "eqlate": p.body.starts_with(b"LATE ") || after.starts_with(b"LATE "), "eqout": p.body == outside || after == outside.as_slice(),
                            "blen": p.body.len() as u32, "tail": tail as u32, "framing": p.framing, "cl": cl, "nct": cts.len(),
                            "fnv": fnv(&p.body), "err": util::clip(&p.error, 120), "how": how, "target": target})
                 }
@@ -241,7 +244,7 @@ fn pathdiff(p: &Path, base: &Path) -> Option<PathBuf> {
 
 // ------------------------------------------------------------------------------------------------ random generator
 const EXTS: [&str; 16] = ["txt", "html", "css", "js", "xml", "csv", "tsv", "vcard", "jpeg", "gif", "png", "svg", "woff", "woff2", "json", "pdf"];
-const STEMS: [&str; 14] = ["a", "b", "ab", "index", "a.min", "x-1", "y_2", "Z", "0", "about", "a.b.c", "inde", "indexx", "sub"];
+const STEMS: [&str; 16] = ["a", "b", "ab", "index", "a.min", "x-1", "y_2", "Z", "0", "about", "a.b.c", "inde", "indexx", "sub", "d", "v1"];
 const DIRS: [&str; 9] = ["sub", "deep", "a", "ab", "d.js", "v1.html", "x-1", "assets", "index"];
 
 fn is_text_ext(e: &str) -> bool { matches!(e, "txt" | "html" | "css" | "js" | "xml" | "csv" | "tsv" | "vcard") }
@@ -307,7 +310,7 @@ pub fn gen(rng: &mut Rng, i: usize) -> Value {
             5 => reqs.push(req("GET", "query", &format!("{short}?v={}", rng.below(100)))),
             6 => reqs.push(req("GET", "dotdot", &format!("{}/{}", join(&base, &if dir.is_empty() { "zz/..".to_string() } else { format!("{dir}/../{}", p[p.len() - 2]) }), strip(name)))),
             7 => reqs.push(req("GET", "enc-dotdot", &format!("{}/%2e%2e/{}", join(&base, "zz"), p.join("/")))),
-            8 => reqs.push(req("GET", "enc-slash", &format!("{}%2f{}", join(&base, &dir).trim_end_matches('/'), strip(name)))),
+            8 => { let b = join(&base, &dir); if b != "/" { reqs.push(req("GET", "enc-slash", &format!("{b}%2f{}", strip(name)))) } else { reqs.push(req("GET", "enc-slash", &format!("/%2f{}", strip(name)))) } }
             9 => reqs.push(req("GET", "dslash", &format!("{}//{}", join(&base, &dir).trim_end_matches('/'), strip(name)))),
             10 => { let mut c = short.clone().into_bytes(); let k = c.len() - 1; c[k] = if c[k] == b'q' { b'r' } else { b'q' }; reqs.push(req("GET", "subst", &String::from_utf8(c).unwrap())) }
             11 => reqs.push(req("GET", "upper", &short.to_ascii_uppercase())),
